@@ -4,6 +4,7 @@ import (
 	"context"
 	"encoding/binary"
 	"errors"
+	"fmt"
 	"net"
 	"time"
 
@@ -31,6 +32,11 @@ type cliAdapter interface {
 	setDest(sel int) // selects one of a few destination addresses (incl. zoned IPv6 ones) for the following calls
 	classify(err error) string
 }
+
+// cliSink formats what a logger hands it and discards the text.
+type cliSink struct{}
+
+func (cliSink) Printf(format string, v ...interface{}) { _ = fmt.Sprintf(format, v...) }
 
 var cliHW = net.HardwareAddr{0x02, 0x11, 0x22, 0x33, 0x44, 0x55}
 
@@ -69,7 +75,12 @@ func (a *v4Adapter) setDest(sel int) { a.destSel = sel }
 
 func (a *v4Adapter) name() string { return "nclient4" }
 func (a *v4Adapter) start(conn *netsim.Conn, timeout time.Duration, tries int, logDropped bool) error {
-	c, err := nclient4.NewWithConn(conn, cliHW, nclient4.WithTimeout(timeout), nclient4.WithRetry(tries))
+	opts := []nclient4.ClientOpt{nclient4.WithTimeout(timeout), nclient4.WithRetry(tries)}
+	if logDropped {
+		// the documented logging configuration with a caller's own Logger (what it prints is discarded)
+		opts = append(opts, nclient4.WithLogger(nclient4.ShortSummaryLogger{Printfer: cliSink{}}))
+	}
+	c, err := nclient4.NewWithConn(conn, cliHW, opts...)
 	a.c, a.conn = c, conn
 	return err
 }
